@@ -21,7 +21,7 @@ func slashInit(retry time.Duration) func(w *world.World) {
 }
 
 var slashProfile = FProfile{MaxConsumers: 2, AbsentC: 50, AbsentP: 5, Raw: true, Remove: false,
-	Weights: map[string]int{"raw": 5, "cblock": 18, "relay": 18, "staking": 4, "vmsg": 4, "remove": 1, "unjail": 2}}
+	Weights: map[string]int{"raw": 5, "cblock": 18, "relay": 18, "staking": 4, "vmsg": 4, "remove": 1, "unjail": 2, "throttle": 1}}
 
 var defC08 = register(&PropDef{
 	ID:      "C08",
@@ -35,7 +35,7 @@ var defC08 = register(&PropDef{
 func TestC08(t *testing.T) { runProp(t, defC08) }
 
 var throttleProfile = FProfile{MaxConsumers: 2, AbsentC: 60, AbsentP: 0, Raw: true,
-	Weights: map[string]int{"raw": 6, "cblock": 20, "relay": 20, "staking": 3, "vmsg": 2, "pblock": 12}}
+	Weights: map[string]int{"raw": 6, "cblock": 20, "relay": 20, "staking": 3, "vmsg": 2, "pblock": 12, "throttle": 5}}
 
 var defC09 = register(&PropDef{
 	ID: "C09",
